@@ -166,9 +166,13 @@ def gen_pair(rng, max_n, allow_inf=True):
 
 def representation(rng, pts):
     """One of the accepted input forms for this diagram."""
-    opts = ["f64", "list"]
+    opts = ["f64", "f64", "list", "view", "fortran"]
+    if pts and all(math.isfinite(x) and float(np.float32(x)) == x for p in pts for x in p):
+        opts += ["f32"]               # exactly representable in single precision
     if pts and all(math.isfinite(x) and float(x).is_integer() and abs(x) < 2 ** 31 for p in pts for x in p):
-        opts += ["i64", "ilist"]
+        opts += ["i64", "ilist", "i32"]
+        if all(0 <= x <= 65535 for p in pts for x in p):
+            opts += ["u16"]
         if all(0 <= x <= 255 for p in pts for x in p):
             opts += ["u8", "u8"]          # e.g. diagrams of 8-bit images
     return rng.choice(opts)
@@ -176,7 +180,7 @@ def representation(rng, pts):
 
 def materialize(pts, rep="f64"):
     """Build the Python object handed to persim."""
-    if rep in ("i64", "ilist", "u8"):
+    if rep in ("i64", "ilist", "u8", "i32", "u16"):
         from sim.sched import InvalidCase
         if not pts or not all(math.isfinite(x) and float(x).is_integer() for p in pts for x in p):
             raise InvalidCase("integer representation of a non-integral diagram")
@@ -184,6 +188,23 @@ def materialize(pts, rep="f64"):
         return np.array(pts, dtype=np.float64).reshape(-1, 2) if pts else np.zeros((0, 2))
     if rep == "i64":
         return np.array(pts, dtype=np.int64).reshape(-1, 2)
+    if rep == "view":          # a non-contiguous (n, 2) view into a wider array
+        base = np.full((len(pts), 5), -7.5)
+        if pts:
+            base[:, 1:4:2] = np.array(pts, dtype=np.float64).reshape(-1, 2)
+        return base[:, 1:4:2]
+    if rep == "fortran":
+        return np.asfortranarray(np.array(pts, dtype=np.float64).reshape(-1, 2)) if pts else np.zeros((0, 2), order="F")
+    if rep == "f32":
+        from sim.sched import InvalidCase
+        if not all(math.isfinite(x) and float(np.float32(x)) == x for p in pts for x in p):
+            raise InvalidCase("not exactly representable in single precision")
+        return np.array(pts, dtype=np.float32).reshape(-1, 2) if pts else np.zeros((0, 2), dtype=np.float32)
+    if rep in ("i32", "u16"):
+        from sim.sched import InvalidCase
+        if rep == "u16" and not all(0 <= x <= 65535 for p in pts for x in p):
+            raise InvalidCase("uint16 range")
+        return np.array(pts, dtype=np.int32 if rep == "i32" else np.uint16).reshape(-1, 2)
     if rep == "u8":
         from sim.sched import InvalidCase
         if not all(0 <= x <= 255 for p in pts for x in p):
